@@ -16,6 +16,24 @@ CLAIMED = {
   "design_ref": "DESIGN.md §5 C02",
   "note": "Trusted: Lean kernel; tools/extract; CPU/libm IEEE-754 binary32/64 RNE arithmetic = CSem.Float (assumption, exercised by e2e on boundary+random operands each run); gcc gives casts the C11 meaning.",
  },
+ "C05": {
+  "technique": "Lean 4 theorems over load/store bodies regenerated from w2c2_base.h + mem-ops differential tie",
+  "text": "The bodies of all 14 load and 9 store functions are regenerated from the current header into a small statement language with explicit memory semantics and proved, for every memory, every in-bounds address of any alignment and every value, to return / write exactly the little-endian bytes the specification prescribes (with frame, round-trip and 33-bit effective-address theorems). The real functions are run against the regenerated bodies and an independently computed specification on every run. memory.grow's sequential semantics is proved in Props/C18 (imported); bulk operations and the emission of memory instructions are tied by e2e only (stated partial).",
+  "design_ref": "DESIGN.md §5 C05",
+  "note": "Trusted: Lean kernel; tools/extract; C object representation (memcpy = host byte order); gcc. Out-of-bounds accesses are outside the property (in-bounds hypothesis).",
+ },
+ "C16": {
+  "technique": "Lean 4 theorems over atomic accessor bodies regenerated from w2c2_base.h + mem-ops differential tie",
+  "text": "All 63 atomic load/store/RMW/cmpxchg functions (bodies regenerated from the header, one __atomic builtin each) are proved to return the zero-extended old value and store the wrapped new value for all memories/addresses/operands; each wrapper is one indivisible memory step in the model.",
+  "design_ref": "DESIGN.md §5 C16",
+  "note": "Trusted: indivisibility and sequential consistency of __atomic_* builtins on naturally aligned cells (assumed).",
+ },
+ "C19": {
+  "technique": "Lean 4 theorems: big-endian bodies (regenerated) on a big-endian host = little-endian bodies on a little-endian host",
+  "text": "For all 23 plain and 14 atomic load/store functions the body selected under WASM_BIG_ENDIAN, run with big-endian object representation, is proved equal (result and memory image) to the little-endian body; the portable mask/shift swaps equal byte reversal for all inputs. The real BE bodies are compiled with forced WASM_BIG_ENDIAN on this host and compared with the model (body=be, host=le) and with the single-reversal expectation.",
+  "design_ref": "DESIGN.md §5 C19",
+  "note": "No BE host in the image: BE theorems are about the regenerated model; the code runs only in forced-BE-on-LE configuration. RMW BE bodies and float immediates of the translator not yet covered (partial).",
+ },
 }
 
 NOT_YET = {f"C{n:02d}": "check under construction in this round (model/theorems not yet committed); see DESIGN.md §8 build order" for n in range(1, 21)}
